@@ -20,6 +20,7 @@ import (
 	"encoding/binary"
 	"errors"
 	"fmt"
+	"io"
 	"math/rand"
 	"runtime"
 	"sort"
@@ -42,9 +43,12 @@ import (
 	propstd "github.com/attestantio/vouch/services/beaconblockproposer/standard"
 	nullmetrics "github.com/attestantio/vouch/services/metrics/null"
 	signerstd "github.com/attestantio/vouch/services/signer/standard"
+	"github.com/attestantio/vouch/services/synccommitteeaggregator"
 	aggstd "github.com/attestantio/vouch/services/synccommitteeaggregator/standard"
+	"github.com/attestantio/vouch/services/synccommitteemessenger"
 	msgstd "github.com/attestantio/vouch/services/synccommitteemessenger/standard"
 	"github.com/rs/zerolog"
+	zerologger "github.com/rs/zerolog/log"
 	e2wtypes "github.com/wealdtech/go-eth2-wallet-types/v2"
 	"verif/checks/ctlsim"
 	"verif/checks/refcfg"
@@ -64,12 +68,16 @@ const (
 // ---------------------------------------------------------------- A. integrated long run
 
 type lworld struct {
-	env   *ctlsim.Env
-	head  atomic.Uint64
-	accts map[phase0.ValidatorIndex]e2wtypes.Account
+	env      *ctlsim.Env
+	head     atomic.Uint64
+	accts    map[phase0.ValidatorIndex]e2wtypes.Account
+	rootFail func(slot uint64) bool // the node cannot give its head root in these slots
 }
 
 func (w *lworld) BeaconBlockRoot(context.Context, *api.BeaconBlockRootOpts) (*api.Response[*phase0.Root], error) {
+	if w.rootFail != nil && w.rootFail(uint64(w.env.Clock.CurrentSlot())) {
+		return nil, errors.New("scripted head root failure")
+	}
 	var root phase0.Root
 	binary.BigEndian.PutUint64(root[:8], w.head.Add(1))
 	return &api.Response[*phase0.Root]{Data: &root, Metadata: map[string]any{}}, nil
@@ -118,10 +126,16 @@ type probeAttester struct {
 	inner    attester.Service
 	w        *lworld
 	inflight func(slot phase0.Slot, pending bool)
+	gate     *atomic.Pointer[chan struct{}] // when set, the job is held here (in flight) until the channel is closed
 }
 
 func (p probeAttester) Attest(ctx context.Context, d *attester.Duty) ([]*phase0.Attestation, error) {
 	p.inflight(d.Slot(), p.w.env.Ctl.HasPendingAttestations(ctx, d.Slot()))
+	if g := p.gate.Load(); g != nil {
+		p.w.env.Busy(1)
+		<-*g
+		p.w.env.Busy(-1)
+	}
 	return p.inner.Attest(ctx, d)
 }
 
@@ -184,7 +198,8 @@ func longRun(c *harness.Ctx, id string, r *rand.Rand, epochs int) {
 		c.Violate(key, what, id, d)
 	}
 	var inflightChecked atomic.Int64
-	env.Opts.Attester = probeAttester{inner: att, w: w, inflight: func(slot phase0.Slot, pending bool) {
+	var attGate atomic.Pointer[chan struct{}]
+	env.Opts.Attester = probeAttester{inner: att, w: w, gate: &attGate, inflight: func(slot phase0.Slot, pending bool) {
 		inflightChecked.Add(1)
 		if !pending {
 			fail("in-flight-attestation-not-pending", fmt.Sprintf("inside the attestation job of slot %d HasPendingAttestations(%d) is false: a shutdown would not wait for it", slot, slot), nil)
@@ -211,7 +226,18 @@ func longRun(c *harness.Ctx, id string, r *rand.Rand, epochs int) {
 			env.Duties.Proposer[e] = []*apiv1.ProposerDuty{{Slot: phase0.Slot(e*spe + uint64(r.Intn(int(spe)))), ValidatorIndex: phase0.ValidatorIndex(vals[r.Intn(len(vals))])}}
 		}
 	}
+	rootFails := map[uint64]bool{}
+	for x := desc.Start; x <= lastEpoch*spe; x++ {
+		if r.Intn(20) < 9 {
+			rootFails[x] = true
+		}
+	}
+	w.rootFail = func(slot uint64) bool { return rootFails[slot] }
 	for p := uint64(0); p <= lastEpoch/period+1; p++ {
+		if p > desc.Start/spe/period && r.Intn(4) == 0 {
+			desc.Kinds[p*period] = "period-without-membership"
+			continue // none of our validators is in this period's committee
+		}
 		env.Duties.Sync[p] = []*apiv1.SyncCommitteeDuty{
 			{ValidatorIndex: 21, ValidatorSyncCommitteeIndices: []phase0.CommitteeIndex{phase0.CommitteeIndex(r.Intn(size))}},
 			{ValidatorIndex: 24, ValidatorSyncCommitteeIndices: []phase0.CommitteeIndex{phase0.CommitteeIndex(r.Intn(size)), phase0.CommitteeIndex(r.Intn(size))}},
@@ -236,6 +262,14 @@ func longRun(c *harness.Ctx, id string, r *rand.Rand, epochs int) {
 		binary.BigEndian.PutUint32(ev.CurrentDutyDependentRoot[:4], depOf(s/spe+1))
 		env.Bus.Emit("head", ev)
 		env.Settle()
+	}
+	sendHeadBusy := func(s uint64) { // as sendHead, while a job is held in flight
+		ev := &apiv1.HeadEvent{Slot: phase0.Slot(s)}
+		binary.BigEndian.PutUint64(ev.Block[:8], s+1)
+		binary.BigEndian.PutUint32(ev.PreviousDutyDependentRoot[:4], depOf(s/spe))
+		binary.BigEndian.PutUint32(ev.CurrentDutyDependentRoot[:4], depOf(s/spe+1))
+		env.Bus.Emit("head", ev)
+		env.SettleBusy()
 	}
 	attJob := func(x uint64) string { return fmt.Sprintf("Attestations for slot %d", x) }
 	check := func(s uint64) {
@@ -305,6 +339,7 @@ func longRun(c *harness.Ctx, id string, r *rand.Rand, epochs int) {
 		}
 	}
 	end := desc.Start + uint64(epochs)*spe
+	reorgDone := map[uint64]bool{}
 	kind := "normal"
 	reorgPos := uint64(0)
 	for s := desc.Start + 1; s <= end; s++ {
@@ -312,7 +347,7 @@ func longRun(c *harness.Ctx, id string, r *rand.Rand, epochs int) {
 		if s%spe == 0 {
 			env.Duties.FailAttester = false
 			kind, reorgPos = "normal", uint64(1+r.Intn(int(spe)-2))
-			switch r.Intn(7) {
+			switch r.Intn(8) {
 			case 0:
 				kind = "reorg-current" // the duties of this epoch change; validators with a later slot move to one that is over
 			case 1:
@@ -324,6 +359,8 @@ func longRun(c *harness.Ctx, id string, r *rand.Rand, epochs int) {
 				env.Duties.FailAttester = true
 			case 4:
 				kind = "reorg-before-attestation" // the reorg arrives before the slot's attestation job has run
+			case 5:
+				kind = "reorg-during-attestation" // the reorg arrives while an attestation job of the epoch is in flight
 			}
 			if kind != "normal" {
 				desc.Kinds[E] = kind
@@ -341,6 +378,28 @@ func longRun(c *harness.Ctx, id string, r *rand.Rand, epochs int) {
 			dep[E] = depOf(E) + 1
 			sendHead(s)
 			c.Count("reorgs_withdrawing_duties", 1)
+		}
+		if kind == "reorg-during-attestation" && env.Sched.Job(attJob(s)) != nil && !reorgDone[E] {
+			// hold the slot's attestation job in flight, deliver the reorg, and look at the slot's mark before the job is let go
+			reorgDone[E] = true
+			gate := make(chan struct{})
+			attGate.Store(&gate)
+			_ = env.Sched.RunJob(bg, attJob(s))
+			env.SettleBusy()
+			if !env.Ctl.HasPendingAttestations(bg, phase0.Slot(s)) {
+				fail("in-flight-attestation-not-pending", fmt.Sprintf("the attestation job of slot %d is running but HasPendingAttestations(%d) is false", s, s), nil)
+			}
+			env.Duties.Attester[E] = genDuties(E, 0, 0)
+			dep[E] = depOf(E) + 1
+			sendHeadBusy(s)
+			if !env.Ctl.HasPendingAttestations(bg, phase0.Slot(s)) {
+				fail("in-flight-attestation-not-pending:after-reorg", fmt.Sprintf("a reorg refreshed the duties of epoch %d while the attestation job of slot %d was in flight; the job is still running but HasPendingAttestations(%d) is now false: a shutdown would not wait for it", E, s, s), nil)
+			}
+			attGate.Store(nil)
+			close(gate)
+			env.Sched.Wait()
+			env.Settle()
+			c.Count("reorgs_during_attestation", 1)
 		}
 		env.RunDueJobs(env.Clock.StartOfSlot(phase0.Slot(s + 1)))
 		if kind != "silent" {
@@ -383,6 +442,155 @@ func uniq(s []string) []string {
 	return out
 }
 
+// ---------------------------------------------------------------- A2. very long histories of the sync committee services and the attester alone
+
+// directLong drives the real sync committee messenger + aggregator and the real attester slot by slot for thousands of
+// slots, the way the controller's jobs do, with the gap patterns a long run meets: head roots that cannot be fetched,
+// outages, periods without committee membership, epochs without attestations.
+func directLong(c *harness.Ctx, id string, r *rand.Rand, slots int) {
+	const size, subnets, targetAggs = 32, 4, 2
+	spe := uint64(8)
+	clock := harness.NewVClock(12*time.Second, spe)
+	vals := []uint64{41, 42, 43}
+	w := &lworld{accts: map[phase0.ValidatorIndex]e2wtypes.Account{}, env: &ctlsim.Env{Clock: clock}}
+	w.env.Opts.SlotsPerEpoch = spe
+	for i, v := range vals {
+		w.accts[phase0.ValidatorIndex(v)] = harness.NewAcct(harness.KindMulti, "W", fmt.Sprintf("direct%d", v), 1380+i, phase0.ValidatorIndex(v), nil)
+	}
+	specP := harness.NewSpec(spe, map[string]any{"SYNC_COMMITTEE_SIZE": uint64(size), "SYNC_COMMITTEE_SUBNET_COUNT": uint64(subnets), "TARGET_AGGREGATORS_PER_SYNC_SUBCOMMITTEE": uint64(targetAggs)})
+	sg, err := signerstd.New(bg, signerstd.WithLogLevel(zerolog.Disabled), signerstd.WithMonitor(nullmetrics.New()), signerstd.WithClientMonitor(nullmetrics.New()), signerstd.WithSpecProvider(specP), signerstd.WithDomainProvider(harness.RecDomains{}))
+	if err != nil {
+		c.Inconclusive(err.Error())
+		return
+	}
+	att, err := attstd.New(bg, attstd.WithLogLevel(zerolog.Disabled), attstd.WithProcessConcurrency(2), attstd.WithChainTime(clock), attstd.WithSpecProvider(specP), attstd.WithAttestationDataProvider(w),
+		attstd.WithAttestationsSubmitter(mock.NewAttestationsSubmitter()), attstd.WithMonitor(nullmetrics.New()), attstd.WithValidatingAccountsProvider(w), attstd.WithBeaconAttestationsSigner(sg))
+	if err != nil {
+		c.Inconclusive("attester: " + err.Error())
+		return
+	}
+	agg, err := aggstd.New(bg, aggstd.WithLogLevel(zerolog.Disabled), aggstd.WithMonitor(nullmetrics.New()), aggstd.WithSpecProvider(specP), aggstd.WithBeaconBlockRootProvider(w), aggstd.WithContributionAndProofSigner(sg),
+		aggstd.WithValidatingAccountsProvider(w), aggstd.WithSyncCommitteeContributionProvider(w), aggstd.WithSyncCommitteeContributionsSubmitter(w), aggstd.WithChainTime(clock))
+	if err != nil {
+		c.Inconclusive("sync aggregator: " + err.Error())
+		return
+	}
+	msgr, err := msgstd.New(bg, msgstd.WithLogLevel(zerolog.Disabled), msgstd.WithProcessConcurrency(2), msgstd.WithMonitor(nullmetrics.New()), msgstd.WithChainTimeService(clock), msgstd.WithSyncCommitteeAggregator(agg),
+		msgstd.WithSpecProvider(specP), msgstd.WithBeaconBlockRootProvider(w), msgstd.WithSyncCommitteeMessagesSubmitter(w), msgstd.WithValidatingAccountsProvider(w), msgstd.WithSyncCommitteeRootSigner(sg),
+		msgstd.WithSyncCommitteeSelectionSigner(sg), msgstd.WithSyncCommitteeSubscriptionsSubmitter(w))
+	if err != nil {
+		c.Inconclusive("sync messenger: " + err.Error())
+		return
+	}
+	// the pattern of this run
+	pattern := []string{"random-gaps", "every-other-slot", "outages", "membership-gaps", "all"}[r.Intn(5)]
+	failing := false
+	member := true
+	var aggregations, messages, attestations, gaps int
+	maxRoots, maxRecords, maxAttested := 0, 0, 0
+	base := uint64(64)
+	for i := 0; i < slots; i++ {
+		s := base + uint64(i)
+		clock.SetSlot(phase0.Slot(s))
+		switch pattern {
+		case "random-gaps":
+			failing = r.Intn(3) == 0
+		case "every-other-slot":
+			failing = s%2 == 1
+		case "outages":
+			if r.Intn(60) == 0 {
+				failing = !failing
+			}
+		case "membership-gaps":
+			if s%64 == 0 {
+				member = r.Intn(2) == 0
+			}
+		default:
+			if r.Intn(40) == 0 {
+				failing = !failing
+			}
+			if s%64 == 0 {
+				member = r.Intn(3) > 0
+			}
+			if r.Intn(5) == 0 {
+				failing = !failing
+			}
+		}
+		w.rootFail = func(uint64) bool { return failing }
+		if member {
+			d := synccommitteemessenger.NewDuty(phase0.Slot(s), map[phase0.ValidatorIndex][]phase0.CommitteeIndex{41: {3}, 43: {17, 30}})
+			d.SetAccount(41, w.accts[41])
+			d.SetAccount(43, w.accts[43])
+			_ = msgr.Prepare(bg, d)
+			if _, err := msgr.Message(bg, d); err == nil {
+				messages++
+				sel := map[phase0.ValidatorIndex]map[uint64]phase0.BLSSignature{}
+				var idx []phase0.ValidatorIndex
+				for _, v := range d.ValidatorIndices() {
+					if m := d.AggregatorSubcommittees(v); len(m) > 0 {
+						sel[v] = m
+						idx = append(idx, v)
+					}
+				}
+				if len(idx) > 0 {
+					agg.Aggregate(bg, &synccommitteeaggregator.Duty{Slot: phase0.Slot(s), ValidatorIndices: idx, SelectionProofs: sel, Accounts: d.Accounts()})
+					aggregations++
+				}
+			} else {
+				gaps++
+			}
+		} else {
+			gaps++
+		}
+		// one attestation duty per epoch, in its third slot; some epochs have none
+		if s%spe == 2 && r.Intn(4) > 0 {
+			duty, err := attester.NewDuty(bg, phase0.Slot(s), 2, []phase0.ValidatorIndex{41, 42, 43}, []phase0.CommitteeIndex{0, 1, 0}, []uint64{1, 2, 3}, map[phase0.CommitteeIndex]uint64{0: 16, 1: 16})
+			if err == nil {
+				failing2 := failing
+				failing = false
+				_, _ = att.Attest(bg, duty)
+				failing = failing2
+				attestations++
+			}
+		}
+		nr, nd, na := len(agg.VerifBeaconBlockRootSlots()), len(msgr.VerifSlotDataRecordSlots()), len(att.VerifAttestedEpochs())
+		if nr > maxRoots {
+			maxRoots = nr
+		}
+		if nd > maxRecords {
+			maxRecords = nd
+		}
+		if na > maxAttested {
+			maxAttested = na
+		}
+		c.Eval(1)
+		detail := map[string]any{"pattern": pattern, "slots_run": i + 1, "messages": messages, "slots_without_message": gaps, "aggregations": aggregations, "attestations": attestations}
+		if nr > maxSlotEntries {
+			c.Violate("unbounded:synccommitteeaggregator.beaconBlockRoots:"+pattern, fmt.Sprintf("after %d slots (%s) the sync committee aggregator holds head roots for %d slots, more than the fixed window of %d", i+1, pattern, nr, maxSlotEntries), id, detail)
+			return
+		}
+		if nd > maxSlotEntries {
+			c.Violate("unbounded:synccommitteemessenger.slotDataRecords:"+pattern, fmt.Sprintf("after %d slots (%s) the sync committee messenger holds records for %d slots, more than the fixed window of %d", i+1, pattern, nd, maxSlotEntries), id, detail)
+			return
+		}
+		if na > maxEpochEntries {
+			c.Violate("unbounded:attester.attested:"+pattern, fmt.Sprintf("after %d slots (%s) the attester's attested map holds %d epochs, more than the fixed window of %d", i+1, pattern, na, maxEpochEntries), id, detail)
+			return
+		}
+	}
+	if messages == 0 || attestations == 0 {
+		c.Inconclusive(id + ": no message or no attestation was made")
+	}
+	c.Count("direct_slots", int64(slots))
+	c.Count("direct_sync_messages", int64(messages))
+	c.Count("direct_slots_without_message", int64(gaps))
+	c.Count("direct_aggregations", int64(aggregations))
+	c.Max("max_entries_direct_beaconBlockRoots", int64(maxRoots))
+	c.Max("max_entries_direct_slotDataRecords", int64(maxRecords))
+	c.Max("max_entries_direct_attested", int64(maxAttested))
+	c.Distinct("direct|" + pattern)
+}
+
 // ---------------------------------------------------------------- B. relay bid cache
 
 func relayCache(c *harness.Ctx, id string, r *rand.Rand, slots int) {
@@ -421,6 +629,25 @@ func relayCache(c *harness.Ctx, id string, r *rand.Rand, slots int) {
 }
 
 // ---------------------------------------------------------------- C. goroutines
+
+// delayHook injects delays at the log statements inside the unblinding goroutines (existing suspension-free points
+// between their checks of the shared semaphore), so that relays that answer together really are inside the hand-over
+// at the same time. It is installed on the global logger the services derive theirs from.
+type delayHook struct{}
+
+func (delayHook) Run(_ *zerolog.Event, _ zerolog.Level, msg string) {
+	switch msg {
+	case "Unblinded block":
+		time.Sleep(3 * time.Millisecond)
+	case "Unblinding block with provider", "Another relay has already responded":
+		time.Sleep(200 * time.Microsecond)
+	}
+}
+
+func installDelayHook() {
+	zerologger.Logger = zerolog.New(io.Discard).Hook(delayHook{})
+	relaycommon.LogLevel = zerolog.TraceLevel
+}
 
 // vouchFrames are the packages whose goroutines must be gone at quiescence.
 var vouchFrames = []string{"github.com/attestantio/vouch/strategies/", "github.com/attestantio/vouch/services/beaconblockproposer/", "github.com/attestantio/vouch/services/blockrelay/standard.(*Service).unblind", "github.com/attestantio/vouch/util.Scatter"}
@@ -704,7 +931,7 @@ func proposerUnblinding(c *harness.Ctx, rounds int) {
 				dutySlot := phase0.Slot(pspe*200 + k%pspe)
 				clock := harness.NewVClock(12*time.Second, pspe)
 				clock.SetSlot(dutySlot)
-				svc, err := propstd.New(bg, propstd.WithLogLevel(zerolog.Disabled), propstd.WithChainTime(clock), propstd.WithProposalDataProvider(w), propstd.WithMonitor(nullmetrics.New()), propstd.WithValidatingAccountsProvider(w),
+				svc, err := propstd.New(bg, propstd.WithLogLevel(zerolog.TraceLevel), propstd.WithChainTime(clock), propstd.WithProposalDataProvider(w), propstd.WithMonitor(nullmetrics.New()), propstd.WithValidatingAccountsProvider(w),
 					propstd.WithExecutionChainHeadProvider(w), propstd.WithProposalSubmitter(w), propstd.WithRANDAORevealSigner(w), propstd.WithBeaconBlockSigner(w), propstd.WithBlobSidecarSigner(w), propstd.WithBlockAuctioneer(w))
 				if err != nil {
 					c.Inconclusive("proposer New: " + err.Error())
@@ -834,7 +1061,7 @@ func run(c *harness.Ctx) {
 	harness.InitBLS()
 	switch part := c.Batch % 6; part {
 	case 0:
-		n, epochs := 6, 100
+		n, epochs := 6, 110
 		if !c.Quick() {
 			n, epochs = 30, 400
 		}
@@ -862,10 +1089,19 @@ func run(c *harness.Ctx) {
 			id := fmt.Sprintf("relay-cache%d", i)
 			c.Case(id, func() { relayCache(c, id, c.Rand("relay", i), 400+200*i) })
 		}
+		nd, dslots := 10, 1500
+		if !c.Quick() {
+			nd, dslots = 60, 6000
+		}
+		for i := 0; i < nd; i++ {
+			id := fmt.Sprintf("direct%d", i)
+			c.Case(id, func() { directLong(c, id, c.Rand("direct", c.Batch, i), dslots) })
+		}
 		rounds := 6
 		if !c.Quick() {
 			rounds = 40
 		}
+		installDelayHook()
 		proposerUnblinding(c, rounds)
 		relayUnblinding(c, rounds)
 	default:
@@ -881,7 +1117,7 @@ func main() {
 	harness.Main(&harness.Spec{
 		Property: "C20",
 		Level:    "exploration",
-		Rule:     "A: long runs (quick 100, thorough 400 epochs each) of the real controller, attester, sync committee messenger and aggregator in virtual time with reorgs that withdraw duties (before and after the slot's attestation), reorgs of the next epoch, epochs without head events, epochs whose duties cannot be fetched: after every slot HasPendingAttestations(x) == (attestation job for x scheduled or running) for x within three epochs of the clock, every marked slot has a job, inside each attestation job its slot is pending, and each bookkeeping map stays within a fixed window (4 epochs / 140 slots / 600 jobs). B: the block relay's bid cache over 400+ slots of auctions. C: all 17 strategies (nodes answering all at once, late, never, all failing, mixed) and both unblinding implementations (relays succeeding at once, rejecting, failing after retries): every call returns and, after the nodes have answered and a settle period, a goroutine dump shows no goroutine inside a vouch strategy / proposer / block relay unblinding frame. distinct = run shape",
+		Rule:     "A: long runs (quick 110, thorough 400 epochs each) of the real controller, attester, sync committee messenger and aggregator in virtual time with reorgs that withdraw duties (before and after the slot's attestation), reorgs of the next epoch, epochs without head events, epochs whose duties cannot be fetched: after every slot HasPendingAttestations(x) == (attestation job for x scheduled or running) for x within three epochs of the clock, every marked slot has a job, inside each attestation job its slot is pending, and each bookkeeping map stays within a fixed window (4 epochs / 140 slots / 600 jobs). B: the block relay's bid cache over 400+ slots of auctions. C: all 17 strategies (nodes answering all at once, late, never, all failing, mixed) and both unblinding implementations (relays succeeding at once, rejecting, failing after retries): every call returns and, after the nodes have answered and a settle period, a goroutine dump shows no goroutine inside a vouch strategy / proposer / block relay unblinding frame. distinct = run shape",
 		Batches: func(tier string) int {
 			if tier == "thorough" {
 				return 12
